@@ -28,6 +28,21 @@ SPECS = [
          ],
          raises={'*': {'ensures': ["raised('e5') or raised('e6') or raised('e1') or raised('e2') or raised('h1')"]}},
          serves=['C01', 'C04'], no_fresh=True),
+    dict(id='S-Case-OnError',
+         # a case that has been selected stays selected when its body fails and the failure is handled:
+         # no later case of the switch is looked at
+         text='A<s tal:switch="e5"><i tal:case="e6" tal:on-error="e11">%s</i><j tal:case="e2">y</j></s>B' % H1,
+         own_names=['error'],
+         ensures=[
+             "evals(5) == 1", "evals(6) == 1",
+             # (a failure of the case expression itself is handled by the same on-error: nothing selected)
+             "raised('e6') or (holes(1) == 1) == bool(val(6) == val(5) or val(6) == DEFAULT())",
+             "holes(1) == 0 or evals(2) == 0",
+             "raised('e6') or holes(1) == 1 or evals(2) == 1",
+         ],
+         raises={'*': {'ensures': ["raised('e5') or raised('e6') or raised('e2') or raised('e11') or "
+                                   "(raised('h1') and not exc_is_exception())"]}},
+         serves=['C04', 'C13', 'C01'], no_fresh=True),
     dict(id='S-Case-Condition',
          # a case element that also carries a guard: the case expression decides whether the
          # element is the selected one, the guard whether the selected element is rendered
